@@ -88,3 +88,19 @@ def explore(factories, norms, refs=None, max_schedules=None):
                     stack.append(sched[:p] + [alt])
     stats['distinct_outcomes'] = len(stats.pop('outcomes'))
     return stats
+
+
+def explore_checked(factories, norms, refs):
+    """explore(); a replay divergence is a harness error unless the library itself carries state from one execution to
+    the next, which is checked directly: a task run alone must still yield what it yielded alone at the start"""
+    try:
+        return explore(factories, norms, refs)
+    except RuntimeError as e:
+        if 'replay divergence' not in str(e):
+            raise
+        now = [alone(f, n) for f, n in zip(factories, norms)]
+        changed = [i for i in range(len(factories)) if now[i] != refs[i]]
+        if not changed:
+            raise
+        return {'schedules': 1, 'steps': 0, 'distinct_outcomes': 2, 'capped': False, 'violating_schedules': 1,
+                'violations': [((), changed[0], now[changed[0]], refs[changed[0]])]}
